@@ -630,8 +630,13 @@ class Gen:
 			op = r.choice(['-', '-', '~', '+'])
 			self.count(f'unary:{op}')
 			c = self.gen_int(env, d - 1)
-			if r.random() < 0.04 and op in '+-':
+			x2 = r.random()
+			if x2 < 0.16 and op in '+-':
+				# same sign twice: bare (`- -a`, guarded by the emitter since 5807b18) or in the user's own parentheses (`-(-a)`)
 				c = E('un', 'int', [c], op=op, lo=(-c.hi if op == '-' else c.lo), hi=(-c.lo if op == '-' else c.hi))
+				if x2 < 0.12:
+					c.paren = True
+				self.count('unary:same-sign-nested')
 			if level(c) >= L_UN and r.random() < 0.2:
 				c.paren = True
 			lo, hi = (-c.hi, -c.lo) if op == '-' else (~c.hi, ~c.lo) if op == '~' else (c.lo, c.hi)
@@ -913,6 +918,18 @@ class Gen:
 		if x < 0.45:
 			op = r.choice(['+', '-', '*'])
 			a, b = self.gen_float(env, d - 1), self.gen_float(env, d - 1)
+			if r.random() < 0.45:
+				# mixed chain `f * 0.5 + a + b`: int operands after a float one (the result type of a chain is not the type of its last pair)
+				op = r.choice(['+', '-'])
+				ints = [self.gen_int(env, 0, cap=64) for _ in range(r.randint(1, 2))]
+				acc = a
+				for i in ints:
+					hi = acc.hi + max(abs(i.lo), abs(i.hi))
+					if hi * 2 ** acc.fe >= 2 ** 22:
+						break
+					acc = E('bin', 'float', [acc, i], op=op, hi=hi, fe=acc.fe)
+					self.count('float:mixed-int-operand')
+				return acc
 			hi, fe = (a.hi * b.hi, a.fe + b.fe) if op == '*' else (a.hi + b.hi, max(a.fe, b.fe))
 			if hi * 2 ** fe >= 2 ** 22 or fe > 10:
 				return a
@@ -994,7 +1011,7 @@ class Gen:
 			if v.mutable and e.hi > 16:
 				v.mutable = False
 		elif ty == 'float':
-			e = self.gen_float(env, 1)
+			e = self.gen_float(env, max(2, self.size))
 			v = Var(name, 'float', 0, e.hi, fe=e.fe)
 		elif ty == 'list[int]':
 			srcs = env.of('list[int]')
